@@ -571,6 +571,84 @@ def clause_g(facts, rep):
     rep.require(n >= 4, 'C13.g: Free sites of the document buffers found: %d' % n)
 
 
+def clause_h(facts, rep):
+    """The lookup map owned through a children block is never dropped: the map pointer inside a MetaNode is reset
+    (placement-new of a MetaNode over the block, setMap(nullptr), `->map = nullptr`) only
+      * on a block that comes fresh from Malloc in the same function,
+      * under a test showing that there was no previous block (previous capacity / pointer equal to zero), or
+      * after the map was released (Free of getMap()) on the same path.
+    A growth by Realloc keeps the header bytes, so re-initialising it there loses a live map."""
+    from ..narrowing import _eval as ev1
+    n = 0
+    for f in facts.functions:
+        if f.cls_qn != DN or not is_s(f):
+            continue
+        resets = []
+        defs = {}
+        for bid, i, st in f.stmts():
+            s_ = strip(st)
+            if s_ is not None and s_.get('k') == 'decl':
+                for vd in s_['vars']:
+                    if vd.get('init') is not None:
+                        defs[vd['id']] = vd['init']
+        for bid, i, st, e in f.walk():
+            if e.get('k') == 'new' and 'MetaNode' in (e.get('at') or '') and e.get('placement'):
+                resets.append((bid, i, e, 'placement-new of MetaNode', e['placement'][0]))
+            if e.get('k') == 'call' and e.get('cname') == 'setMap' and e.get('args') and cval(e['args'][0]) == 0:
+                resets.append((bid, i, e, 'setMap(nullptr)', None))
+            if e.get('k') == 'bin' and e['op'] == '=' and strip(e['l']) is not None and strip(e['l']).get('k') == 'member' and strip(e['l']).get('name') == 'map' and cval(e['r']) == 0 \
+                    and 'MetaNode' not in (f.cls or '') and f.short != 'MetaNode':
+                resets.append((bid, i, e, 'map = nullptr', None))
+        if not resets:
+            continue
+        rep.fn(f)
+
+        def provenance(x, depth=0):
+            x = strip(x)
+            while x is not None and depth < 8:
+                depth += 1
+                if x.get('k') in ('cast', 'paren'):
+                    x = strip(x['e'])
+                elif x.get('k') == 'ref' and x.get('id') in defs:
+                    x = strip(defs[x['id']])
+                elif x.get('k') == 'call':
+                    return x.get('cname')
+                else:
+                    return None
+            return None
+
+        def gen_edge(b, cond, sense):
+            c = strip_expect(cond)
+            if c is None:
+                return []
+            ids = [y for y in walk(c) if y.get('k') == 'ref' and y.get('dk') in ('local', 'param')]
+            if len(set(y['id'] for y in ids)) != 1:
+                return []
+            vid = ids[0]['id']
+            try:
+                sat = [v for v in (0, 1, 2, 16, 1 << 20) if bool(ev1(c, {vid: v})) == sense]
+            except KeyError:
+                return []
+            return ['first-alloc'] if sat == [0] else []
+
+        def gen_stmt(st):
+            for e in walk(st):
+                if e.get('k') == 'call' and e.get('cname') == 'Free' and any(y.get('k') == 'call' and y.get('cname') in ('getMap', 'getMapUnsfe') for y in walk(e)):
+                    return ['map-freed']
+            return []
+        M = Must(f, gen_edge=gen_edge, gen_stmt=gen_stmt)
+        for bid, i, e, what, target in resets:
+            st = M.at(bid, i)
+            if st is None:
+                continue
+            n += 1
+            fresh = target is not None and provenance(target) in ('Malloc', 'malloc')
+            rep.check(fresh or 'first-alloc' in st or 'map-freed' in st, 'E8.map-preserved', f.qn, '%s: %s' % (what, show(e)[:60]), locline(e['loc']),
+                      'the map pointer of a children block may be reset only on a fresh block, when there was no previous block, or after the map was freed; '
+                      'block provenance: %s, facts: %s' % (provenance(target) if target is not None else '-', sorted(st)), facts.config)
+    rep.require(n >= 3, 'C13.h: map pointer resets found: %d' % n)
+
+
 def run(rep, tier):
     configs = ['K1'] if tier == 'quick' else ['K1', 'K3']
     for cfg in configs:
@@ -583,6 +661,7 @@ def run(rep, tier):
         clause_e(facts, rep)
         clause_f(facts, rep)
         clause_g(facts, rep)
+        clause_h(facts, rep)
     rep.trust('clang 14 front end', 'clang -verify for the compile-fail witnesses', 'libc realloc/free')
     rep.assumptions += [
         'decides type-level copy prohibition, raw-move pairing, destroy-before-overwrite with provenance, the arms of destroy() the discipline of owning raw-pointer fields and the completeness of Swap / move transfers of the document buffers (freeing-allocator instantiations)',
